@@ -1,0 +1,8 @@
+//go:build verif
+
+// Verification hooks (build tag "verif"). Add-only.
+
+package mathext
+
+func VerifPdepGeneric(x, mask uint64) uint64 { return pdepGeneric(x, mask) }
+func VerifPextGeneric(x, mask uint64) uint64 { return pextGeneric(x, mask) }
